@@ -73,8 +73,9 @@ func verif_harness_C14_http_independence() {
 	verif_assert(verifHeaderSame(t3.Header, hdrSnap), "C14.http.target-without-headers-gets-defaults")
 	verif_assert(string(t1.Body) == "body" && string(t3.Body) == "body", "C14.http.default-body-when-none")
 	verif_assert(t1.Method == "GET" && t1.URL == "http://a/" && t2.URL == "http://b/" && t3.URL == "http://c/", "C14.http.method-and-url")
-	var t4 Target
+	var t4, t5 Target
 	verif_assert(tr(&t4) == ErrNoTargets, "C14.http.exhaustion-reported")
+	verif_assert(tr(&t5) == ErrNoTargets, "C14.http.exhaustion-reported-to-every-later-call")
 }
 
 // C14 (M) — independence, JSON format, through the real easyjson decoder on
@@ -105,8 +106,9 @@ func verif_harness_C14_json_independence() {
 	verif_assert(tr(&t3) == nil, "C14.json.third-target-decodes")
 	verif_assert(verifHeaderSame(t1.Header, snap1) && verifHeaderSame(t2.Header, snap2) && verifHeaderSame(hdr, hdrSnap), "C14.json.earlier-targets-and-defaults-unchanged")
 	verif_assert(verifHeaderSame(t3.Header, hdrSnap), "C14.json.target-without-headers-gets-defaults")
-	var t4 Target
+	var t4, t5 Target
 	verif_assert(tr(&t4) == ErrNoTargets, "C14.json.exhaustion-reported")
+	verif_assert(tr(&t5) == ErrNoTargets, "C14.json.exhaustion-reported-to-every-later-call")
 }
 
 // verifRefTargets is a reference reader of the http target format written from
@@ -251,7 +253,14 @@ func verif_harness_C14_read_all() {
 // the line it was handed), then ErrNoTargets.
 //
 //verif:harness unwind=64 replay=none
-func verif_harness_C14_long_lines() {
+func verif_harness_C14_long_lines() { verifLongLines() }
+
+// The same harness registered for C15 (no target lost or mixed with another).
+//
+//verif:harness unwind=64 replay=none
+func verif_harness_C15_long_lines() { verifLongLines() }
+
+func verifLongLines() {
 	if !verif_is_symbolic_run() {
 		return
 	}
